@@ -18,6 +18,7 @@ import (
 	"github.com/feichai0017/NoKV/manifest"
 	"github.com/feichai0017/NoKV/metrics"
 	"github.com/feichai0017/NoKV/utils"
+	"github.com/feichai0017/NoKV/verifhook"
 	"github.com/feichai0017/NoKV/vfs"
 	vlogpkg "github.com/feichai0017/NoKV/vlog"
 	"github.com/feichai0017/NoKV/wal"
@@ -263,6 +264,9 @@ func Open(opt *Options) *DB {
 	db.lsm.StartCompacter()
 	// Initialize the commit queue and GC plumbing.
 	queueCap := max(opt.WriteBatchMaxCount*8, 1024)
+	if n := verifhook.Int("db.commit-queue-cap"); n > 0 {
+		queueCap = n
+	}
 	db.commitQueue.init(queueCap)
 	db.commitWG.Add(1)
 	go db.commitWorker()
